@@ -49,6 +49,7 @@ METRIC_SPECS = [
     ("manhattan", "manhattan", None),
     ("cityblock", "cityblock", None),
     ("cosine", "cosine", None),
+    ("sqeuclid_p", "euclidean", {"squared": True}),                          # a named cost with parameters that is NOT a metric (no triangle inequality)
     ("pre_metric", "precomputed", None),
     ("pre_sym", "precomputed", None),
     ("pre_intdist", "precomputed", None),
